@@ -122,7 +122,7 @@ def prepare(ctx, combos):
 
 def absorb(ctx, rep, label, pid):
     ctx.merge_counters(rep.get("counters", {}), label + ".")
-    ctx.distinct += rep.get("distinct", {}).get(pid, 0)
+    ctx.add_distinct("episodes", label, rep.get("distinct", {}).get(pid, 0))
     ctx.evaluations += rep.get("counters", {}).get("episodes", 0)
     for s in rep.get("samples", []):
         if len(ctx.samples) < 6:
@@ -384,7 +384,7 @@ def compile_half(ctx):
     checked = len([m for m in m2["modules"] if m["status"] == "emitted"])
     ctx.count("modules_type_checked_with_every_fragment_selection", checked)
     ctx.evaluations += checked
-    ctx.distinct += checked
+    ctx.add_distinct("modules type-checked", "cargo check", checked)
     for m in m2["modules"]:
         if m["status"] != "emitted":
             ctx.violation("definition-not-generated", "%s: %s | definition: %s" % (m["module"], m["status"], m["history"]),
